@@ -21,6 +21,7 @@ python3 tools/gen_expr_ast.py > build/gen_expr_ast.log   # C07/C08/C09: Generate
 python3 tools/gen_vloop_ast.py > build/gen_vloop_ast.log   # C05/C02/C01: Generated/VLoopAst.lean (clang AST, two vector configurations: loop structure of ntt_loop_sse_unrolled / ntt_loop_avx2_unrolled::run + core::ntt; after gen_simd_ast, gen_ntt_ast, gen_nttloop_ast, ~13 s)
 python3 tools/gen_setmpz_ast.py > build/gen_setmpz_ast.log   # C04/C15: Generated/SetMpzAst.lean (clang AST of poly::set_mpz<It>(It,It) + forwarding overloads / mpz constructors; after gen_crt_ast, ~3 s)
 python3 tools/gen_lut_ast.py > build/gen_lut_ast.log       # C10: Generated/LutAst.lean (clang AST of FastGaussianNoise.hpp: buildLookupTables, 4 instantiations, <3 s)
+python3 tools/gen_entry_ast.py > build/gen_entry_ast.log   # C01/C02: Generated/EntryAst.lean (clang AST of core::ntt_pow_phi / core::invntt_pow_invphi: glue over ExprAst + NttLoopAst + InitAst; after gen_expr_ast, gen_nttloop_ast, gen_init_ast, ~3 s)
 python3 tools/gen_footprint.py > build/gen_footprint.log   # C17: Generated/Footprint.lean (valgrind-lackey, ~15 s)
 cd lean
 lake build NflVerif driver
